@@ -317,14 +317,15 @@ def ob_band(W, iscsd):
 
     def sched(**kw):
         return {"f": mk(fv), "r": mk(rv_), "b": mk(bv), "L": rnp.array(Ls), "K": rnp.array(Ks), "navg": rnp.array(Ks), "D": [d.copy() for d in D], "O": mk(ov), "nf": nf}
-    a = object.__new__(A.SpectrumAnalyzer)
+    from symx.shim import clone_module
+    GA = clone_module(A, dict(np=NumpyShim())) if W.sym else None
+    a = object.__new__(GA["SpectrumAnalyzer"] if W.sym else A.SpectrumAnalyzer)
     a.fs = fs; a.nx = N; a.verbose = False; a.iscsd = iscsd; a._plan_cache = None
     a.config = {"scheduler_func": sched, "scheduler_name": "stub", "final_olap": 0.5, "bmin": 1.0, "Lmin": 1, "Kdes": 10, "Jdes": 5, "force_target_nf": False, "band": (lo, hi), "num_patch_pts": None}
-    planf = clone(A.SpectrumAnalyzer.plan, np=NumpyShim()) if W.sym else A.SpectrumAnalyzer.plan
     if W.sym:
         W.run.concrete_masks = True
     try:
-        p = planf(a)
+        p = a.plan()
     except ValueError as e:
         # legitimate only when no bin lies in the band
         none_in = W.And(*[W.Or(W.lt(fv[j], lo), W.gt(fv[j], hi)) for j in range(nf)]) if W.sym else all((fv[j] < lo or fv[j] > hi) for j in range(nf))
